@@ -447,6 +447,8 @@ theorem startInstant_sim (a : Actor) (s : St) (supOk : Bool) (hph : a.phase = .c
   simp only []
   have hl' : ∀ a' : Actor, a'.msgQ = a.msgQ → Live a' s := fun a' h => ⟨by rw [h]; exact hl.queue, hl.over, hl.entered⟩
   split
+  · exact Sim.mono next (failSpawn_sim _ _ _ (by simp) (by simp) hl.entered) (fun _ _ (hp : P _ _) => hp.1)
+  split
   · split
     · split
       · exact Sim.mono next (failSpawn_sim _ _ _ (by simp) (by simp) hl.entered) (fun _ _ (hp : P _ _) => hp.1)
